@@ -20,6 +20,10 @@ analysable and outside the rule.
   fe_mul_int   r' = c r exactly for every constant factor the callers pass; fe_add: r' = r + a exactly
   i128_rshift  (emulated 128-bit integers only) the two words after secp256k1_i128_rshift(x, n) are the two's-complement
                pattern of floor(x / 2^n), sign extension included, for every constant n the callers pass
+  scalar_negate / scalar_cond_negate / scalar_half / cmov (scalar, fe, fe_storage)
+               the mask-selected results: r = (a == 0 ? 0 : n - a), r' = (r == 0 ? 0 : flag ? n - r : r) (mod 2^256),
+               2 r = a + (a & 1) n, every word of r' is flag ? a : r — select masks (-(bit), bit - 1, bit + ~0, ~mask,
+               0xFF..F * bit) are tracked as such: x & mask = bit x, x ^ mask = x + bit (2^w - 1 - 2 x)
   mul_shift    for each constant shift its callers use: the limbs stored to r are floor(a b / 2^shift) and the rounding
                bit handed to scalar_cadd_bit is bit shift-1 of the product                scalar_mul_shift_var
 
@@ -52,6 +56,12 @@ SPECS = [
     ("secp256k1_fe_mul_int_unchecked", "fe_mul_int"),
     ("secp256k1_fe_add", "fe_add"),
     ("secp256k1_i128_rshift", "i128_rshift"),
+    ("secp256k1_scalar_negate", "scalar_negate"),
+    ("secp256k1_scalar_cond_negate", "scalar_cond_negate"),
+    ("secp256k1_scalar_half", "scalar_half"),
+    ("secp256k1_scalar_cmov", "cmov"),
+    ("secp256k1_fe_cmov", "cmov"),
+    ("secp256k1_fe_storage_cmov", "cmov"),
 ]
 # C05 is the home of the arithmetic; C01 / C02 quantify their signature equations "on every build configuration" and
 # consist of nothing but this arithmetic, so a wrong product in a portable configuration breaks them as well
@@ -113,6 +123,13 @@ def _verdict(L, R, modulus, what):
                     seen.setdefault(L.atoms[a]["desc"], L.atoms[a])
         L.failures = []
         for desc, at in seen.items():
+            if at.get("target"):
+                # identity of the finding: the object of the kernel that receives the truncated value
+                slug = "into_" + re.sub(r"[^A-Za-z0-9_]+", "_", at["target"]).strip("_")
+                if any(x[0] == slug for x in L.failures):
+                    continue
+                L.failures.append((slug, at["loc"], "%s does not hold for all inputs: the top of `%s` (%s) can be non-zero and is dropped" % (what, desc, at["loc"])))
+                continue
             slug = re.sub(r"[^A-Za-z0-9_+*<>&|-]+", "_", re.sub(r"@\d+", "", desc.split(" at ")[0]))[:48].strip("_")
             L.failures.append((slug, at["loc"], "%s does not hold for all inputs: the top of `%s` (%s) can be non-zero and is dropped" % (what, desc, at["loc"])))
         return False, L.failures[0][2]
@@ -433,7 +450,88 @@ def _i128_rshift(prog, f):
     return (True, "arithmetic shift by %s: low word, high word and sign extension as specified" % ", ".join(map(str, sorted(ns)))), L
 
 
-KINDS = {"i128_rshift": _i128_rshift, "fe_weak": _fe_weak, "fe_weak_m32": _fe_weak32, "fe_half": _fe_half, "fe_negate": _fe_negate, "fe_mul_int": _fe_mul_int, "fe_add": _fe_add,
+def _one_minus(p):
+    return padd(pconst(1), p, -1)
+
+
+def _zero_bit(L, name):
+    """The symbol of secp256k1_scalar_is_zero(<name>), applied once and before anything was written to the object."""
+    ops = [i for i, a in enumerate(L.atoms) if a["kind"] == "op" and a["desc"].startswith("secp256k1_scalar_is_zero(")]
+    if len(ops) != 1:
+        raise Undecided("%d uses of secp256k1_scalar_is_zero" % len(ops))
+    at = L.atoms[ops[0]]
+    if not at["desc"].endswith("(%s)" % name) or at["snap"]:
+        raise Undecided("secp256k1_scalar_is_zero is not applied to the unmodified %s" % name)
+    return patom(ops[0])
+
+
+def _scalar_negate(prog, f):
+    W, n = _scalar_layout(prog)
+    r, a = f.params[0]["name"], f.params[1]["name"]
+    L = Limbs(prog, lambda key: (1 << W) - 1 if key.startswith(a + "[0].d[") else None)
+    L.opaque = {"secp256k1_scalar_is_zero": 1}
+    L.run(f)
+    X = _sum(L, ["%s[0].d[%d]" % (r, k) for k in range(n)], W)
+    z = _zero_bit(L, a)
+    E = L.reduce(pmul(_one_minus(z), padd(pconst(N), _insum(L, a + "[0].d[%d]", n, W), -1)))
+    return _verdict(L, padd(X, E, -1), 1 << 256, "r = (a == 0 ? 0 : n - a) (mod 2^256)"), L
+
+
+def _scalar_cond_negate(prog, f):
+    W, n = _scalar_layout(prog)
+    r, fl = f.params[0]["name"], f.params[1]["name"]
+    L = Limbs(prog, lambda key: (1 << W) - 1 if key.startswith(r + "[0].d[") else (1 if key == fl else None))
+    L.opaque = {"secp256k1_scalar_is_zero": 1}
+    L.run(f)
+    X = _sum(L, ["%s[0].d[%d]" % (r, k) for k in range(n)], W)
+    z = _zero_bit(L, r)
+    R = _insum(L, r + "[0].d[%d]", n, W)
+    if fl not in L.inputs:
+        return (False, "the flag is not used"), L
+    fb = patom(L.inputs[fl])
+    E = pmul(_one_minus(z), padd(pmul(_one_minus(fb), R), pmul(fb, padd(pconst(N), R, -1))))
+    return _verdict(L, padd(X, L.reduce(E), -1), 1 << 256, "r' = (r == 0 ? 0 : flag ? n - r : r) (mod 2^256)"), L
+
+
+def _scalar_half(prog, f):
+    W, n = _scalar_layout(prog)
+    r, a = f.params[0]["name"], f.params[1]["name"]
+    L = Limbs(prog, lambda key: (1 << W) - 1 if key.startswith(a + "[0].d[") else None)
+    L.run(f)
+    X = _sum(L, ["%s[0].d[%d]" % (r, k) for k in range(n)], W)
+    a0 = L.inputs.get(a + "[0].d[0]")
+    if a0 is None:
+        return (False, "the low limb is not read"), L
+    lo, q = L.split(Val(patom(a0), (1 << W) - 1), 2, "low bit of a")
+    E = padd(_insum(L, a + "[0].d[%d]", n, W), pscale(lo.p, N))
+    return _verdict(L, padd(pscale(X, 2), E, -1), None, "2 r = a + (a & 1) n"), L
+
+
+def _cmov(prog, f):
+    r, a, fl = [p["name"] for p in f.params[:3]]
+    st = prog.structs.get(f.params[0].get("pointee_canon") or "") or prog.structs.get(f.params[0].get("pointee") or "")
+    fld = (st or {}).get("fields", [{}])[0]
+    wbits = (fld.get("bytes", 8) * 8 // (fld.get("array_n") or 1)) if fld else 64
+    L = Limbs(prog, lambda key: (1 << wbits) - 1 if key.startswith((r + "[0].", a + "[0].")) else (1 if key == fl else None))
+    L.run(f)
+    if fl not in L.inputs:
+        return (False, "the flag is not used"), L
+    fb = patom(L.inputs[fl])
+    keys = [k for k in sorted(L.mem) if k.startswith(r + "[0].") and "#" not in k]
+    if not keys:
+        raise Undecided("no word of %s is written" % r)
+    R = {}
+    for i, k in enumerate(keys):
+        ri, ai = L.inputs.get(k), L.inputs.get(a + k[len(r):])
+        if ri is None or ai is None:
+            return (False, "word %s of the result does not depend on both %s and %s" % (k, r, a)), L
+        E = padd(pmul(_one_minus(fb), patom(ri)), pmul(fb, patom(ai)))
+        R = padd(R, pscale(padd(L.mem[k].p, E, -1), 1 << (70 * i)))          # disjoint weights: every word must match
+    return _verdict(L, L.reduce(R), None, "every word of r' is flag ? a : r (%d words of %d bits)" % (len(keys), wbits)), L
+
+
+KINDS = {"scalar_negate": _scalar_negate, "scalar_cond_negate": _scalar_cond_negate, "scalar_half": _scalar_half, "cmov": _cmov,
+         "i128_rshift": _i128_rshift, "fe_weak": _fe_weak, "fe_weak_m32": _fe_weak32, "fe_half": _fe_half, "fe_negate": _fe_negate, "fe_mul_int": _fe_mul_int, "fe_add": _fe_add,
          "product": _product, "reduce512": _reduce512, "reduce": _reduce, "add": _add, "fe_product": _fe_product, "mul_shift": _mul_shift}
 
 
